@@ -1,9 +1,9 @@
 """Renderer and expectations for FortranScopes.tla behaviours."""
 from __future__ import annotations
 
-PFX = {"a": "a", "module": "mod", "program": "prg", "sub": "sub", "fun": "fun", "t": "typ", "g": "gen", "v": "v", "b": "b",
+PFX = {"o": "op", "pp": "pp", "iface_op": "op", "a": "a", "module": "mod", "program": "prg", "sub": "sub", "fun": "fun", "t": "typ", "g": "gen", "v": "v", "b": "b",
        "x": "x", "nomod": "nomod", "type": "typ", "iface_named": "gen", "ibody": "ibd"}
-ENDKW = {"module": "module", "program": "program", "sub": "subroutine", "fun": "function", "ibody_sub": "subroutine",
+ENDKW = {"iface_op": "interface", "module": "module", "program": "program", "sub": "subroutine", "fun": "function", "ibody_sub": "subroutine",
          "ibody_fun": "function", "type": "type", "iface_named": "interface", "iface_abstract": "interface",
          "block": "block", "do": "do", "if": "if", "select": "select", "associate": "associate", "where": "where"}
 OPEN_CONSTRUCT = {"block": "block", "do": "do", "if": "if (.true.) then", "select": "select case (1)",
@@ -59,6 +59,8 @@ def stmt_text(prog, i, ibody_kinds):
             return "interface " + n
         if kind == "iface_abstract":
             return "abstract interface"
+        if kind == "iface_op":
+            return "interface operator(.op%s.)" % "abcdefghij"[st["name"][1] % 10]
         return OPEN_CONSTRUCT[kind]
     if op == "use":
         return "use " + nm(st["name"])
@@ -67,6 +69,9 @@ def stmt_text(prog, i, ibody_kinds):
     if op == "decl":
         if kind == "intentvar":
             return "integer, intent(in) :: " + nm(st["name"])
+        if kind == "procptr":
+            tn = st["tname"]
+            return "procedure(%s%d), pointer :: %s" % (PFX[ibody_kinds.get(tn[1], "sub")], tn[1], nm(st["name"]))
         if kind == "typedvar":
             return "type(%s) :: %s" % (nm(st["tname"]), nm(st["name"]))
         return "integer :: " + nm(st["name"])
@@ -97,6 +102,8 @@ def stmt_text(prog, i, ibody_kinds):
             name = nm(n)
             if kind == "ibody":
                 name = "%s%d" % (PFX[ibody_kinds.get(n[1], "sub")], n[1])
+            if kind == "iface_op":
+                name = "operator(.op%s.)" % "abcdefghij"[n[1] % 10]
             return "end %s %s" % (kw, name)
         return "end " + kw
     raise ValueError(st)
